@@ -10,6 +10,7 @@ a changed alignment-stripping class, or a compose entry point supplied by anothe
 breaks them before any behaviour is sampled.
 -/
 import MenpoModel.Generated.C03Classes
+import MenpoModel.Core.C03Entry
 
 namespace MenpoModel.GenProps.C03
 open MenpoModel.C03
@@ -24,5 +25,10 @@ theorem classTable3_ok : MenpoModel.Generated.C03.classTable3 = expectedClassTab
 model transcribes (an override of `_compose_before_inplace` in an alignment class, a new `_apply`,
 a `copy` that stops being `Copyable.copy` on chains … breaks this before any behaviour is sampled) -/
 theorem methodTable_ok : MenpoModel.Generated.C03.methodTable = expectedMethodTable := by decide
+
+/-- the composition gates of the classes outside the family: a `TransformChain` composes (in place
+and not) with every `Transform`; `WithDims`, thin-plate splines and piecewise affine transforms are
+not `ComposableTransform`s (they have no gate: their `compose_before/after` always build a chain) -/
+theorem otherGates_ok : MenpoModel.Generated.C03.otherGates = expectedOtherGates := by decide
 
 end MenpoModel.GenProps.C03
